@@ -24,3 +24,8 @@ impl AnyhowError {
     pub fn msg() -> AnyhowError { unimplemented!() }
 }
 pub type Result<T, E = AnyhowError> = std::result::Result<T, E>;
+/// so that `anyhow::Result<T>` / `anyhow::Error` in extracted signatures resolve to the shells above
+pub mod anyhow {
+    pub type Result<T, E = super::AnyhowError> = std::result::Result<T, E>;
+    pub type Error = super::AnyhowError;
+}
